@@ -168,6 +168,7 @@ func init() {
 				prefixFilter(c.rule("R15", ruleR15), "R15", "LINKED: LinkedHashSet table ↔ order list", 5, "R15a:sets/linkedhashset", "R15b:sets/linkedhashset", "R15c:sets/linkedhashset", "R15w:sets/linkedhashset", "R15d:sets/linkedhashset"),
 				prefixFilter(c.rule("R24", ruleR24), "R24", "HASH: HashSet is the Go map", 2, "R24:sets/hashset"),
 				prefixFilter(c.rule("R46", ruleR46), "R46", "CTORVALUES: New(values...) / NewWith(cmp, values...) of the three sets hand the values to the set unless there are none", 3, "R46:sets/"),
+				prefixFilter(c.rule("R12g", ruleR12g), "R12g", "CLEAR: Clear of the three sets leaves nothing behind (a fresh table / Clear of every inner container — not a key-by-key delete, which cannot remove a member that is not equal to itself)", 3, "R12clear:sets/"),
 				filter(c.rule("R2d", ruleR2d), "R2d", "SEPARATE: a set handed out by Union/Intersection/Difference/Select/Map shares no storage with its operands (an Add or Remove on one set is never an Add or Remove on another)", 9, func(o Obligation) bool {
 					return strings.HasPrefix(o.Key, "R2d:sets/")
 				}),
